@@ -2,7 +2,10 @@ module verifharness
 
 go 1.21
 
-require github.com/tuneinsight/lattigo/v6 v6.0.0
+require (
+	github.com/tuneinsight/lattigo/v6 v6.0.0
+	golang.org/x/crypto v0.31.0
+)
 
 require (
 	github.com/ALTree/bigfloat v0.0.0-20220102081255-38c8b72a9924 // indirect
@@ -10,7 +13,6 @@ require (
 	github.com/google/go-cmp v0.5.8 // indirect
 	github.com/pmezard/go-difflib v1.0.0 // indirect
 	github.com/stretchr/testify v1.8.0 // indirect
-	golang.org/x/crypto v0.31.0 // indirect
 	golang.org/x/exp v0.0.0-20230321023759-10a507213a29 // indirect
 	golang.org/x/sys v0.28.0 // indirect
 	gopkg.in/yaml.v3 v3.0.1 // indirect
